@@ -653,7 +653,7 @@ PLANS["C18"] = dict(
     floors={"quick": {"evaluations": 40, "distinct": 12, "interleaving_runs": 30, "interleavings_returned": 30, "session_scenarios_ok": 12},
             "thorough": {"evaluations": 1_000, "interleaving_runs": 600}},
     wall_limit={"quick": 600, "thorough": 3600},
-    assumptions=["'always eventually' is restated as bounded progress: no lost wake-up state + return observed within 8 s after the race (10 s after the last session); a child that exceeds 40 s is inconclusive",
+    assumptions=["'always eventually' is restated as bounded progress: no lost wake-up state + return observed within 8 s after the race (10 s after the last session), and a scenario that misses that is re-run alone with 100 s of patience before it counts; a child that exceeds its watchdog (40 s / 160 s) is inconclusive",
                  "polling accept and reading the flag are one scheduling step (no statement boundary, no shared state between them)", "rt_tokio only"],
 )
 META["C18"] = dict(
